@@ -72,6 +72,19 @@ CHECKS = {
   "`[(.a*.b), .a, .b]` and `(.a*.b) as $m | .` leave the operands as they were, and `yq ea '. as $i ireduce ({}; . * $i)' f1..fN` equals the left fold. Held on the cases generated.",
   "The region the property leaves open (kind conflict combined with + ? n) is skipped; `+d` together is asserted as observed.",
   "DESIGN.md §5 C04"),
+ "C05": ("exploration",
+  "independent-reader monitor: yq's output is re-read with yaml.v3's Node API (not yqlib) and compared with the generator's ground truth and with the input's presentation extract; idempotence byte for byte",
+  "An own YAML emitter with a presentation plan (scalar styles, flow/block, head/line/foot comments, anchors/aliases, explicit and custom tags, multi-document streams, leading comment blocks, "
+  "comment-only and empty documents) feeds `yq .` (library, binary file and stdin); data, per-path presentation table and linearised comment stream must be preserved wherever the bare yaml.v3 "
+  "round trip preserves them; yq(yq(x)) == yq(x). Held on the streams generated.",
+  "N-version against yaml.v3's reader: a fault it shares in parse and print is invisible; attributes the bare library loses are counted, not asserted; generator/yaml.v3 disagreement = inconclusive.",
+  "DESIGN.md §5 C05"),
+ "C07": ("exploration",
+  "metamorphic presentation monitor: `yq u` and `yq .` are both re-read with yaml.v3 and must agree on every node, comment and separator outside the target set T computed by the harness",
+  "11 update kinds (scalar/subtree replace, delete, += on sequences and maps, |= arithmetic/string, key creation, multi-target, recursive selection) at generated locations of commented/styled documents; "
+  "rows outside T (kind, value, tag, style, anchor, line comment, order) equal after index re-mapping, untouched comment gaps identical, document count and separators equal. Held on the cases generated.",
+  "T's own presentation and the documented restyle of an empty parent are not asserted; targets containing anchors are not generated.",
+  "DESIGN.md §5 C07"),
  "C08": ("exploration",
   "metamorphic side-effect monitor: the document printed after evaluating an assignment-free expression in each position the property names must be byte-identical to `yq .`",
   "15 placement templates (variable binding, select, any_c/all_c, sort_by/group_by/unique_by keys, has/contains/pick arguments, both operands of every binary operator in a writable context, map/filter) "
